@@ -74,11 +74,30 @@ def scenarios(draw):
         sc["opts"] += ["--keep_tmp"]
     if src.bool(0.3):
         sc["opts"] += ["--count_exons"]
+    # state outside the run's own intermediate files: a plain-gzipped reference (unpacked into the output folder), and
+    # an output folder that still holds a complete earlier run on other reads (the interrupted run uses --force)
+    sc["gz_reference"] = src.bool(0.3)
+    sc["stale_dir"] = src.bool(0.35)
+    sc["stale_mask"] = [src.bool(0.5) for _ in sc["reads"]]
     return sc
+
+
+def fresh_reference(paths):
+    """every run starts without the index files that an earlier run left next to the reference"""
+    for suf in (".fai", ".gzi"):
+        if os.path.exists(paths["fasta"] + suf):
+            os.remove(paths["fasta"] + suf)
 
 
 def prepare(sc, d):
     paths = build.materialise(sc, os.path.join(d, "in"))
+    if sc.get("gz_reference"):
+        import gzip
+        gz = paths["fasta"] + ".gz"
+        with open(paths["fasta"], "rb") as f, gzip.open(gz, "wb") as g:
+            g.write(f.read())
+        os.remove(paths["fasta"])
+        paths["fasta"] = gz
     extra = []
     if sc["grouping"] == "tag":
         extra = ["--read_group", "tag:RG"]
@@ -92,6 +111,33 @@ def prepare(sc, d):
     return paths, extra
 
 
+def make_stale(sc, d, paths, extra, ctx):
+    """A complete earlier run (other reads, --keep_tmp) whose folder the interrupted run re-uses with --force."""
+    if not sc.get("stale_dir"):
+        return None
+    sub = dict(sc)
+    sub["reads"] = [r for r, keep in zip(sc["reads"], sc["stale_mask"]) if keep] or sc["reads"][:1]
+    bams = build.write_bams(sub, paths["genome"], os.path.join(d, "in"), prefix="stale")
+    p2 = dict(paths)
+    p2["bams"] = bams
+    stale = os.path.join(d, "stale")
+    opts = [o for o in sc["opts"] if o != "--keep_tmp"] + ["--keep_tmp"]
+    sub["opts"] = opts
+    fresh_reference(paths)
+    ctx.pipeline_runs += 1
+    if run.run_fork(build.base_argv(sub, p2, stale, extra), os.path.join(d, "home_stale"),
+                    os.path.join(d, "stale.log")) != 0:
+        return None
+    return stale
+
+
+def start_dir(stale, out):
+    if stale:
+        shutil.copytree(stale, out)
+        return ["--force"]
+    return []
+
+
 def enumerate_scenario(sc, ctx, shard, nshards, modes, stride=1):
     d = ctx.scratch()
     try:
@@ -100,13 +146,17 @@ def enumerate_scenario(sc, ctx, shard, nshards, modes, stride=1):
         clean_out = os.path.join(d, "clean")
         argv = build.base_argv(sc, paths, clean_out, extra)
         ctx.pipeline_runs += 1
+        fresh_reference(paths)
         if run.run_fork(argv, os.path.join(d, "home_clean"), os.path.join(d, "clean.log")) != 0:
             ctx.note("clean_run_failed")
             return
+        stale = make_stale(sc, d, paths, extra, ctx)
         lab = os.path.join(d, "labels.txt")
         list_out = os.path.join(d, "listing")
         ctx.pipeline_runs += 1
-        code = run.run_fork(build.base_argv(sc, paths, list_out, extra), os.path.join(d, "home_list"),
+        fresh_reference(paths)
+        code = run.run_fork(build.base_argv(sc, paths, list_out, extra + start_dir(stale, list_out)),
+                            os.path.join(d, "home_list"),
                             os.path.join(d, "list.log"), env={"ABLAB_ISOQUANT_VERIF": "1"},
                             pre=lambda: crashwrap.install(0, "before", lab))
         if code != 0 or not os.path.exists(lab):
@@ -130,8 +180,9 @@ def enumerate_scenario(sc, ctx, shard, nshards, modes, stride=1):
                     ctx.nontrivial_n += 1
                 out = os.path.join(d, "crash_%s_%d" % (mode, k))
                 h = os.path.join(d, "home_%s_%d" % (mode, k))
-                cargv = build.base_argv(sc, paths, out, extra)
+                cargv = build.base_argv(sc, paths, out, extra + start_dir(stale, out))
                 ctx.pipeline_runs += 1
+                fresh_reference(paths)
                 code = run.run_fork(cargv, h, os.path.join(d, "crash.log"), env={"ABLAB_ISOQUANT_VERIF": "1"},
                                     pre=lambda k=k, mode=mode: crashwrap.install(k, mode, None))
                 case = {"scenario": sc, "k": k, "mode": mode, "label": label}
@@ -183,6 +234,8 @@ def run_enumeration(shard, nshards, seed, n, ctx, tier="quick"):
         sc["grouping"] = ["file", "tag", "none"][i % 3]
         if i % 3 == 0:
             sc["opts"] = [o for o in sc["opts"] if o != "--keep_tmp"]
+        sc["stale_dir"] = i % 2 == 1
+        sc["gz_reference"] = i % 2 == 0
         enumerate_scenario(sc, ctx, shard, nshards, modes)
     ctx.evaluations = 0
     body()
@@ -195,14 +248,18 @@ def eval_replay(case, ctx):
         paths, extra = prepare(sc, d)
         clean_out = os.path.join(d, "clean")
         ctx.pipeline_runs += 1
+        fresh_reference(paths)
         if run.run_fork(build.base_argv(sc, paths, clean_out, extra), os.path.join(d, "home_clean"),
                         os.path.join(d, "clean.log")) != 0:
             ctx.harness_errors.append("clean run failed in replay")
             return
+        stale = make_stale(sc, d, paths, extra, ctx)
         out = os.path.join(d, "crash")
         h = os.path.join(d, "home")
         k, mode = case["k"], case["mode"]
-        code = run.run_fork(build.base_argv(sc, paths, out, extra), h, os.path.join(d, "crash.log"),
+        fresh_reference(paths)
+        code = run.run_fork(build.base_argv(sc, paths, out, extra + start_dir(stale, out)), h,
+                            os.path.join(d, "crash.log"),
                             env={"ABLAB_ISOQUANT_VERIF": "1"}, pre=lambda: crashwrap.install(k, mode, None))
         if code != crashwrap.EXIT_CODE:
             return
